@@ -39,6 +39,8 @@ def main(argv):
             chk.tag = ""
         else:
             chk.note("MIR of every analysed crate is byte-identical with and without debug assertions")
+        if hasattr(ctx, "_both"):
+            chk.cov["std_plus_alloc"] = "MIR differs from std: analysed as a fourth configuration" if ctx._both else "MIR identical to std (compared in full): covered by std"
         chk.cov["profiles"] = ["debug-assertions on"] + (["debug-assertions off"] if diff else ["debug-assertions off (identical MIR)"])
     except Unanalysable as u:
         chk.violation("%s/unanalysable/%s" % (pid, u.what[:120]), "reason=unanalysable: %s" % u.what,
